@@ -34,21 +34,20 @@ typedef __typeof__(*((DET_T *)0)->f0) REP_T;      /* Determinate<Box<...>>::Rep:
 #define REP_REFS(r)    ((r)->f0)
 #define REP_BOX(r)     (&(r)->f1)
 SPEC const NB_T *ps_end(const PS_T *s) { return (const NB_T *)HDR(s); }
-/* k-th node (0-based) or the end sentinel */
-SPEC const NB_T *ps_nth(const PS_T *s, int k) {
-  const NB_T *n = HDR(s)->f0.f0;
-  for (int i = 0; i < PS_MAX; i++) { if (i == k || n == ps_end(s)) return n; n = n->f0; }
-  return n;
-}
-SPEC int ps_count(const PS_T *s) {          /* number of disjuncts, -1 if more than PS_MAX */
+#define NODE_BOX(n) REP_BOX(NODE_REP(n))
+/* the disjunct boxes in list order, collected in ONE traversal (b[k] = 0 beyond the end); returns their number,
+   -1 if there are more than PS_MAX */
+SPEC int ps_boxes(const PS_T *s, const BOX_T *b[PS_MAX]) {
   const NB_T *n = HDR(s)->f0.f0; int c = 0;
-  for (int i = 0; i <= PS_MAX; i++) { if (n == ps_end(s)) return c; if (i == PS_MAX) return -1; n = n->f0; c++; }
-  return -1;
+  for (int i = 0; i < PS_MAX; i++) {
+    if (n != ps_end(s)) { b[i] = NODE_BOX(n); n = n->f0; c++; } else b[i] = 0;
+  }
+  return n == ps_end(s) ? c : -1;
 }
-SPEC const BOX_T *ps_box(const PS_T *s, int k) { return REP_BOX(NODE_REP(ps_nth(s, k))); }
+SPEC int ps_count(const PS_T *s) { const BOX_T *b[PS_MAX]; return ps_boxes(s, b); }
 SPEC int ps_sat(const PS_T *s) {
-  int c = ps_count(s);
-  for (int k = 0; k < PS_MAX; k++) if (k < c && bsat(ps_box(s, k))) return 1;
+  const BOX_T *b[PS_MAX]; int c = ps_boxes(s, b);
+  for (int k = 0; k < PS_MAX; k++) if (k < c && bsat(b[k])) return 1;
   return 0;
 }
 SPEC int box_empty_any(const BOX_T *b) { return box_empty(b, SEQ(b)); }
@@ -57,24 +56,22 @@ SPEC int box_contains_any(const BOX_T *a, const BOX_T *b) {     /* set containme
 }
 /* omega-reduced: no empty disjunct, none contained in another */
 SPEC int ps_omega_reduced(const PS_T *s) {
-  int c = ps_count(s);
+  const BOX_T *b[PS_MAX]; int c = ps_boxes(s, b);
   for (int i = 0; i < PS_MAX; i++) if (i < c) {
-    if (box_empty_any(ps_box(s, i))) return 0;
-    for (int j = 0; j < PS_MAX; j++) if (j < c && j != i && box_contains_any(ps_box(s, j), ps_box(s, i))) return 0;
+    if (box_empty_any(b[i])) return 0;
+    for (int j = 0; j < PS_MAX; j++) if (j < c && j != i && box_contains_any(b[j], b[i])) return 0;
   }
   return 1;
 }
 SPEC int ps_wf(const PS_T *s) {
-  int c = ps_count(s);
-  if (c < 0 || HDR(s)->f1 != (uint64_t)c || PS_REDUCED(s) > 1 || PS_DIM(s) != BOX_D) return 0;
-  const NB_T *prev = ps_end(s);
-  for (int k = 0; k < PS_MAX; k++) if (k < c) {
-    const NB_T *n = ps_nth(s, k);
+  const NB_T *n = HDR(s)->f0.f0, *prev = ps_end(s); int c = 0;
+  for (int k = 0; k < PS_MAX; k++) if (n != ps_end(s)) {
     if (n->f1 != prev) return 0;
-    prev = n;
-    if (NODE_REP(n) == 0 || REP_REFS(NODE_REP(n)) == 0 || !box_wf_any(ps_box(s, k))) return 0;
+    if (NODE_REP(n) == 0 || REP_REFS(NODE_REP(n)) == 0 || !box_wf_any(NODE_BOX(n))) return 0;
+    prev = n; n = n->f0; c++;
   }
-  if (HDR(s)->f0.f1 != prev) return 0;
+  if (n != ps_end(s) || HDR(s)->f0.f1 != prev) return 0;
+  if (HDR(s)->f1 != (uint64_t)c || PS_REDUCED(s) > 1 || PS_DIM(s) != BOX_D) return 0;
   if (PS_REDUCED(s) && !ps_omega_reduced(s)) return 0;
   return 1;
 }
@@ -99,6 +96,10 @@ extern int G_ssatX0, G_ssatY0, G_dsat0, G_cntX0;
   POST(contains_meet_of_the_unions, !(G_ssatX0 && G_ssatY0) || ps_sat(x)) POST(x_wf, ps_wf(x)) SKEEP_Y
 #define C_s_topological_closure_POSTS(R) \
   POST(contains_x, !G_ssatX0 || ps_sat(x)) POST(x_wf, ps_wf(x))
+/* operator=: the copy denotes what the source denotes, is well formed in its own right (in particular its
+   'reduced' flag tells the truth about ITS disjunct list), and the source is unaffected */
+#define C_s_assign_POSTS(R) \
+  POST(same_union, ps_sat(x) == G_ssatY0) POST(x_wf, ps_wf(x)) SKEEP_Y
 #define C_s_is_empty_POSTS(R) \
   POST(definite, !(R) || !G_ssatX0) POST(x_wf, ps_wf(x)) POST(x_union_unchanged, ps_sat(x) == G_ssatX0)
 #define C_s_contains_POSTS(R) \
@@ -127,6 +128,7 @@ void  FN_s_pairwise_reduce(PS_T *x) PRE_SX ASSIGNS(FRAME_S) FREES_S C_s_pairwise
 void  FN_s_add_disjunct(PS_T *x, const BOX_T *d) PRE_SX PRE(wf_d, d == &G_d && box_wf(d, G_id)) ASSIGNS(FRAME_S) FREES_S C_s_add_disjunct_POSTS(0);
 void  FN_s_intersection(PS_T *x, const PS_T *y) PRE_SXY ASSIGNS(FRAME_S) FREES_S C_s_intersection_POSTS(0);
 void  FN_s_topological_closure(PS_T *x) PRE_SX ASSIGNS(FRAME_S) FREES_S C_s_topological_closure_POSTS(0);
+PS_T *FN_s_assign(PS_T *x, const PS_T *y) PRE_SXY ASSIGNS(FRAME_S) FREES_S C_s_assign_POSTS(0) POST(returns_receiver, RET == x);
 _Bool FN_s_is_empty(const PS_T *x) PRE_SX ASSIGNS(FRAME_S) FREES_S C_s_is_empty_POSTS(RET);
 _Bool FN_s_contains(const PS_T *x, const PS_T *y) PRE_SXY ASSIGNS(FRAME_S) FREES_S C_s_contains_POSTS(RET);
 _Bool FN_s_is_disjoint_from(const PS_T *x, const PS_T *y) PRE_SXY ASSIGNS(FRAME_S) FREES_S C_s_is_disjoint_from_POSTS(RET);
